@@ -22,7 +22,8 @@ let run (path : String.t) =
        incr cases;
        Hashtbl.replace distinct l ();
        Hashtbl.replace kinds kind (1 + try Hashtbl.find kinds kind with Not_found -> 0);
-       let input = bytes_of (match rest with [h] -> h | _ -> "-") in
+       let input = bytes_of (match rest with h :: _ -> h | _ -> "-") in
+       let expected = List.fold_left (fun acc t -> if String.length t > 4 && String.sub t 0 4 = "exp=" then Some (String.sub t 4 (String.length t - 4)) else acc) None rest in
        let status = (match res with s :: _ -> s | [] -> "?") in
        (match status with "ok" -> incr oks | "err" -> incr errs | "panic" -> incr panics | _ -> incr aborts);
        let prop = ref (status = "ok" || status = "err") and corr = ref true in
@@ -55,7 +56,11 @@ let run (path : String.t) =
            | Some (Some (a, b)), "ok" -> if value <> ["S"; string_of_n a; hex_of_ints (List.map int_of_n b)] then corr := false
            | None, "err" -> ()
            | _ -> corr := false)
-        | _ -> ());
+        | _ ->
+          (* a compression of a known payload, untouched: decompressing it gives that payload back (length and hash) *)
+          (match expected with
+           | Some e -> if not (status = "ok" && value = [e]) then prop := false
+           | None -> ()));
        if not !corr then incr corr_fail;
        if not !prop then incr prop_fail;
        if not (!corr && !prop) then
